@@ -169,7 +169,7 @@ def bounded(rep, tier):
             ("C02.site-grid", G.site_cases(), G.run_site, "filter= on def / anonymous block / named block / <%text>, with D and P configured, buffer_filters on a buffered def; 8 filter lists",
              "filter= and buffer_filters apply the named functions in order, without D and P"),
             ("C02.spelling-grid", list(G.spelling_cases()), G.run_spelling,
-             "27 expression atoms containing | } quotes comments newlines inside brackets or strings x 4 paddings x 4 filter spellings, and all ordered pairs of 14 atoms",
+             "31 expression atoms (four with a backslash-newline continuation inside the literal) containing | } quotes comments newlines inside brackets or strings x 4 paddings x 4 filter spellings, and all ordered pairs of 14 atoms",
              "every expression is scanned whole and evaluated to the value Python gives it")):
         t0 = time.time()
         outs = [o for o in pool_map(fn, cases) if o]
